@@ -23,6 +23,61 @@ def _idx(prog: Program) -> Dict[str, int]:
     return {n: prog.C("STATS_IDX_" + n) for n in STAT_NAMES}
 
 
+def _new_counters(prog: Program) -> Dict[str, int]:
+    """Counters the package declares beyond the 13 the event rules know (STATS_IDX_<N> in the constants module): a maintainer's addition.
+    Their event is not known to R-COUNTER; R-STATS-MAP holds them to the same wiring as the others (own index, own label, reported,
+    aggregated by sum or max over the workers)."""
+    out: Dict[str, int] = {}
+    m = prog.modules.get(f"{prog.package}.constants")
+    if m is None:
+        return out
+    for nm, v in m.consts.items():
+        if nm.startswith("STATS_IDX_") and isinstance(v, int) and not isinstance(v, bool) and nm[len("STATS_IDX_"):] not in STAT_NAMES:
+            out[nm[len("STATS_IDX_"):]] = v
+    return out
+
+
+_MUTATORS = ("append", "extend", "insert", "pop", "remove", "sort", "reverse", "clear")
+
+
+def _const_table(prog: Program, modname: str, e: ast.expr) -> Any:
+    """A constant tuple, or a module-level list literal of constants that is assigned once and that nothing in the program mutates."""
+    seq = prog.fold(modname, e)
+    if seq is not NO and isinstance(seq, tuple):
+        return seq
+    if not isinstance(e, ast.Name):
+        return NO
+    mod, name = modname, e.id
+    for _ in range(6):
+        m = prog.modules.get(mod)
+        if m is None:
+            return NO
+        if name in m.globals_assigned:
+            break
+        if name in m.imports and m.imports[name][1] is not None:
+            mod, name = m.imports[name]
+            continue
+        return NO
+    m = prog.modules[mod]
+    asg = m.globals_assigned.get(name, [])
+    if len(asg) != 1 or not isinstance(asg[0], (ast.Assign, ast.AnnAssign)) or not isinstance(asg[0].value, (ast.List, ast.Tuple)):
+        return NO
+    vals = [prog.fold(mod, x) for x in asg[0].value.elts]
+    if any(v is NO for v in vals):
+        return NO
+    for mm in prog.modules.values():  # nobody changes the list after its definition
+        for n in ast.walk(mm.tree):
+            if isinstance(n, ast.Attribute) and n.attr in _MUTATORS and isinstance(n.value, ast.Name) and n.value.id == name:
+                return NO
+            if isinstance(n, (ast.Subscript, ast.Name)) and isinstance(getattr(n, "ctx", None), (ast.Store, ast.Del)):
+                base = n.value if isinstance(n, ast.Subscript) else n
+                if isinstance(base, ast.Name) and base.id == name and not (mm is m and any(n is t or any(n is w for w in ast.walk(t)) for t in (asg[0].targets if isinstance(asg[0], ast.Assign) else [asg[0].target]))):
+                    return NO
+            if isinstance(n, ast.AugAssign) and isinstance(n.target, ast.Name) and n.target.id == name:
+                return NO
+    return tuple(vals)
+
+
 def _incs(events: List[Event], stats_root: str, idx: int, own_fn: Optional[str] = None) -> List[Event]:
     return [e for e in events if e.kind == "store" and e.root == stats_root and tuple(e.idx) == (K(idx),) and (own_fn is None or e.fn == own_fn)]
 
@@ -399,6 +454,24 @@ def _stats_entries(prog: Program, fn: FuncInfo) -> List[Tuple[Any, Any, Optional
             r = prog.fold(fn.module, e)
             return None if r is NO else r
         core = v
+        if isinstance(core, ast.Call) and isinstance(core.func, ast.IfExp):
+            # (agg_a if <test on the loop variables> else agg_b)(self.statistics, idx): the test is decided per table row
+            t = core.func.test
+            verdict: Optional[bool] = None
+            if isinstance(t, ast.Compare) and len(t.ops) == 1:
+                a_, b_ = val(t.left), val(t.comparators[0])
+                if a_ is not None and b_ is not None:
+                    if isinstance(t.ops[0], ast.Eq):
+                        verdict = a_ == b_
+                    elif isinstance(t.ops[0], ast.NotEq):
+                        verdict = a_ != b_
+                    elif isinstance(t.ops[0], ast.In) and isinstance(b_, tuple):
+                        verdict = a_ in b_
+                    elif isinstance(t.ops[0], ast.NotIn) and isinstance(b_, tuple):
+                        verdict = a_ not in b_
+            if verdict is None:
+                raise AnalysisError(f"{fn.fq}: the aggregator of an entry is chosen by a test that is not decided per table row")
+            core = ast.copy_location(ast.Call(func=core.func.body if verdict else core.func.orelse, args=core.args, keywords=core.keywords), core)
         if isinstance(core, ast.Call) and isinstance(core.func, ast.Name):
             aggname = core.func.id
             if len(core.args) == 2 and ast.unparse(core.args[0]) == "self.statistics":
@@ -420,9 +493,9 @@ def _stats_entries(prog: Program, fn: FuncInfo) -> List[Tuple[Any, Any, Optional
         g = d.generators[0]
         it = g.iter
         enum = isinstance(it, ast.Call) and isinstance(it.func, ast.Name) and it.func.id == "enumerate" and len(it.args) == 1
-        seq = prog.fold(fn.module, it.args[0] if enum else it)
+        seq = _const_table(prog, fn.module, it.args[0] if enum else it)
         if seq is NO or not isinstance(seq, tuple):
-            raise AnalysisError(f"{fn.fq}: the table the dictionary is built from is not a constant tuple")
+            raise AnalysisError(f"{fn.fq}: the table the dictionary is built from is not a constant tuple (or a module-level list nobody mutates)")
         for i, item in enumerate(seq):
             env: Dict[str, Any] = {}
             tg = g.target
@@ -448,12 +521,21 @@ def _stats_entries(prog: Program, fn: FuncInfo) -> List[Tuple[Any, Any, Optional
 def rule_stats_map(ctx: Ctx, prog: Program) -> None:
     ctx.rule("R-STATS-MAP")
     IDX = _idx(prog)
+    NEW = _new_counters(prog)
+    for n, v in NEW.items():
+        lbl = prog.modules[f"{prog.package}.constants"].consts.get("STATS_LBL_" + n)
+        if not isinstance(lbl, str) or lbl in IDX or lbl in [x for x in STAT_NAMES]:
+            ctx.violation("R-STATS-MAP", "nucs/constants.py", "constants", f"label:{n}", "nucs/constants.py:1", f"the added counter STATS_IDX_{n} has no label of its own (STATS_LBL_{n} = {lbl!r})")
+        else:
+            ctx.ok("R-STATS-MAP", f"added counter {n}: own label {lbl!r}")
+            IDX = dict(IDX)
+            IDX[lbl] = v
     smax = prog.C("STATS_MAX")
-    if smax != len(STAT_NAMES) or sorted(IDX.values()) != list(range(smax)):
+    if smax != len(IDX) or sorted(IDX.values()) != list(range(smax)):
         ctx.violation("R-STATS-MAP", "nucs/constants.py", "constants", "indices", "nucs/constants.py:1",
                       f"the statistic indices are not a permutation of range(STATS_MAX): STATS_MAX={smax}, indices={sorted(IDX.values())}")
     else:
-        ctx.ok("R-STATS-MAP", "13 distinct indices = range(STATS_MAX)")
+        ctx.ok("R-STATS-MAP", f"{len(IDX)} distinct indices = range(STATS_MAX)")
     for n in STAT_NAMES:
         lbl = prog.C("STATS_LBL_" + n)
         if lbl != n:
@@ -475,7 +557,7 @@ def rule_stats_map(ctx: Ctx, prog: Program) -> None:
             if agg:
                 want = "max" if lbl == "SOLVER_CHOICE_DEPTH" else "sum"
                 r_ = prog.resolve(fn.module, aggname) if aggname else None
-                okk = okk and bool(r_) and r_[0] == "func" and _agg_kind(r_[1]) == want
+                okk = okk and bool(r_) and r_[0] == "func" and (_agg_kind(r_[1]) == want or (lbl not in STAT_NAMES and _agg_kind(r_[1]) in ("sum", "max")))
                 want += " over the workers"
             else:
                 okk = okk and aggname in (None, "int")
